@@ -84,10 +84,10 @@ FirstDir(u) == IF \E d \in Dirs : fs[d][u].st # "absent"
 Reuse(u, d, fn) == ModDir /\ mods[u].kind # "none" /\ mods[u].mt >= fs[d][fn].mt
 \* fn = the name of the source file in directory d (the URI itself, except for an entry that was placed
 \* with put_template under another URI than its own)
-Load(u, d, fn, c0, s0, op) ==
+Load(u, d, fn, c0, s0, op, pfx) ==
   IF ~Reuse(u, d, fn) /\ fs[d][fn].st = "broken"
   THEN /\ coll' = c0 /\ stamp' = Norm(c0, s0)        \* except: self._collection.pop(uri, None); raise
-       /\ last' = [op |-> op, u |-> u, res |-> "compile_error"] /\ UNCHANGED <<nobj, built, mods>>
+       /\ last' = [op |-> op, u |-> u, res |-> "compile_error", br |-> pfx \o "-broken"] /\ UNCHANGED <<nobj, built, mods>>
        /\ alias' = [alias EXCEPT ![u] = None]
   ELSE LET m  == IF Reuse(u, d, fn) THEN mods[u]
                  ELSE [kind |-> "mod", ver |-> fs[d][fn].ver, mt |-> Sec(now), ct |-> now, dir |-> d, fn |-> fn]
@@ -97,26 +97,27 @@ Load(u, d, fn, c0, s0, op) ==
        IN /\ coll' = c1 /\ stamp' = Norm(c1, s1)
           /\ nobj' = nobj + 1 /\ built' = built + 1
           /\ mods' = (IF ModDir THEN [mods EXCEPT ![u] = m] ELSE mods)
-          /\ last' = [op |-> op, u |-> u, res |-> "tmpl", obj |-> nobj + 1, ver |-> m.ver]
+          /\ last' = [op |-> op, u |-> u, res |-> "tmpl", obj |-> nobj + 1, ver |-> m.ver,
+                       br |-> IF Reuse(u, d, fn) THEN pfx \o "-reuse" ELSE pfx]
           /\ UNCHANGED alias
 GetCore(u, op) ==
   IF coll[u].kind # "none"
   THEN LET t == coll[u]
            s1 == Touch(u)
        IN IF ~FsChecks \/ t.kind # "file"            \* no checks, or template.filename is None
-          THEN /\ last' = [op |-> op, u |-> u, res |-> "tmpl", obj |-> t.obj, ver |-> t.ver]
+          THEN /\ last' = [op |-> op, u |-> u, res |-> "tmpl", obj |-> t.obj, ver |-> t.ver, br |-> "hit-nocheck"]
                /\ stamp' = Norm(coll, s1) /\ UNCHANGED <<coll, nobj, built, mods, alias>>
           ELSE IF fs[t.dir][t.fn].st = "absent"            \* os.stat fails: evict, TemplateLookupException
                THEN /\ coll' = [coll EXCEPT ![u] = None] /\ stamp' = Norm(coll', s1)
-                    /\ last' = [op |-> op, u |-> u, res |-> "lookup_exc"] /\ UNCHANGED <<nobj, built, mods>>
+                    /\ last' = [op |-> op, u |-> u, res |-> "lookup_exc", br |-> "vanished"] /\ UNCHANGED <<nobj, built, mods>>
                     /\ alias' = [alias EXCEPT ![u] = None]
                ELSE IF t.ct >= TPS * fs[t.dir][t.fn].mt   \* module._modified_time >= st_mtime
-                    THEN /\ last' = [op |-> op, u |-> u, res |-> "tmpl", obj |-> t.obj, ver |-> t.ver]
+                    THEN /\ last' = [op |-> op, u |-> u, res |-> "tmpl", obj |-> t.obj, ver |-> t.ver, br |-> "hit"]
                          /\ stamp' = Norm(coll, s1) /\ UNCHANGED <<coll, nobj, built, mods, alias>>
-                    ELSE Load(u, t.dir, t.fn, [coll EXCEPT ![u] = None], s1, op)   \* pop, reload from the SAME file, under the SAME uri
+                    ELSE Load(u, t.dir, t.fn, [coll EXCEPT ![u] = None], s1, op, "reload")   \* pop, reload from the SAME file, under the SAME uri
   ELSE IF FirstDir(u) = 0
-       THEN /\ last' = [op |-> op, u |-> u, res |-> "toplevel_exc"] /\ UNCHANGED <<coll, stamp, nobj, built, mods, alias>>
-       ELSE Load(u, FirstDir(u), u, coll, stamp, op)
+       THEN /\ last' = [op |-> op, u |-> u, res |-> "toplevel_exc", br |-> "miss"] /\ UNCHANGED <<coll, stamp, nobj, built, mods, alias>>
+       ELSE Load(u, FirstDir(u), u, coll, stamp, op, "load")
 Get(u) == GetCore(u, "get") /\ UNCHANGED <<now, fs, ver, pinned>>
 Has(u) == GetCore(u, "has") /\ UNCHANGED <<now, fs, ver, pinned>>     \* has_template = get_template, result reduced to a boolean
 \* put_string (byLookup = TRUE: the Template is constructed by the lookup) and put_template
@@ -184,5 +185,12 @@ RecoverAfterFailure == [][(IsGet' /\ last'.res = "compile_error") =>
 PutServed == (IsGet /\ pinned[last.u] # 0) => (last.res = "tmpl" /\ last.obj = pinned[last.u])
 \* ... including a file-backed template registered under another URI: as long as its file is there
 PutFileServed == (IsGet /\ alias[last.u].kind # "none" /\ fs[alias[last.u].d][alias[last.u].fn].st # "absent") => last.res \in {"tmpl", "compile_error"}
+\* Witnesses: state predicates that MUST be reachable; the harness asks TLC for a behaviour reaching each
+\* (as a counterexample to its negation) and replays that behaviour on the real TemplateLookup, so that every
+\* branch of get_template is exercised by a TLC-generated behaviour and not only by random simulation.
+Branches == {"hit", "hit-nocheck", "vanished", "reload", "reload-reuse", "reload-broken", "miss", "load", "load-reuse", "load-broken"}
+WBranch(b) == IsGet /\ last.br = b
+WAliasBranch(b) == IsGet /\ last.br = b /\ alias[last.u].kind # "none"
+WEvicted == \E u \in Uris : coll[u].kind = "none" /\ stamp[u] = 0 /\ Cardinality(Cached(coll)) = Size /\ last.op \in {"get", "has", "put", "puttmpl", "putfile"} /\ last.u # u /\ pinned[u] = 0 /\ built >= Size + 1
 View == <<now, fs, coll, stamp, ver, last, pinned, mods, alias>>
 =============================================================================
